@@ -277,6 +277,9 @@ func genExtraTable(r *simrt.RNG, used map[string]bool, srs gpkgh.SRS, p int, k i
 		pos := 1 + r.Intn(len(t.Columns))
 		t.Columns = append(t.Columns[:pos], append([]gpkgh.Column{{Name: t.GeomCol, Type: t.GeomType}}, t.Columns[pos:]...)...)
 	}
+	if p > 1000 {
+		p = 10 // (a page size meaning "everything in one transaction": keep the table small)
+	}
 	c := r.Intn(2*p + 2)
 	base := float64(1000000*k + r.Intn(500000))
 	if r.Chance(0.3) {
@@ -344,7 +347,14 @@ func genWork(seed uint64) (gwork, simrt.FaultPlan, simrt.MapPolicy, uint64) {
 	}
 	for i, n := 0, nattr; i < n; i++ {
 		typ := []string{"INTEGER", "REAL", "TEXT", "DOUBLE", "MEDIUMINT", "TEXT(20)", "Integer", "text", "Real", "DOUBLE PRECISION", "VARCHAR(10)", "BIGINT", "NUMERIC", "DECIMAL(10,2)"}[r.Intn(14)]
-		attrs = append(attrs, gpkgh.Column{Name: ident(r, used), Type: typ, NotNull: r.Chance(0.3)})
+		name := ident(r, used)
+		if r.Chance(0.03) {
+			// column names with characters that need more than a pair of quotes
+			k := 1 + r.Intn(len(name)-1)
+			name = name[:k] + []string{"\\", "\t", "\u00a0", "\"", " ", "'", "-", "é", "%", "?"}[r.Intn(10)] + name[k:]
+			used[strings.ToLower(name)] = true
+		}
+		attrs = append(attrs, gpkgh.Column{Name: name, Type: typ, NotNull: r.Chance(0.3)})
 	}
 	geomNotNull := r.Chance(0.3)
 	gcol := gpkgh.Column{Name: t.GeomCol, Type: t.GeomType, NotNull: geomNotNull}
@@ -367,7 +377,18 @@ func genWork(seed uint64) (gwork, simrt.FaultPlan, simrt.MapPolicy, uint64) {
 	if r.Chance(0.004) {
 		p = []int{100, 250, 500, 1000}[r.Intn(4)] // the default page size and other round ones (rarely: up to 3001 rows)
 	}
+	if nattr >= 30 && r.Chance(0.15) {
+		p = []int{500, 1000}[r.Intn(2)] // a wide table and a large page: limits on bound parameters are products of the two
+	}
+	hugePage := r.Chance(0.005)
+	if hugePage {
+		p = []int{1 << 44, 1 << 50, 1 << 62}[r.Intn(3)] // "everything in one transaction"
+	}
 	var c int
+	pReal := p
+	if hugePage {
+		p = 1000 // (for the arithmetic of the switch below only; overridden afterwards)
+	}
 	switch k := r.Intn(9); k {
 	case 0:
 		c, w.Relation = 0, "count=0"
@@ -385,6 +406,10 @@ func genWork(seed uint64) (gwork, simrt.FaultPlan, simrt.MapPolicy, uint64) {
 		c, w.Relation = 3*p+1, "count=3*page+1"
 	default:
 		c, w.Relation = r.Intn(3*p+2), "count=any"
+	}
+	if hugePage {
+		p = pReal
+		c, w.Relation = r.Intn(25), "count<page"
 	}
 	if c > 3*p+1 {
 		c = 3*p + 1
